@@ -161,7 +161,7 @@ package actions
 //@   ensures only_dead: exists now clock :: forall d Id :: old(deliveries.exists(d)) && !deliveries.exists(d) ==> old(deliveries.expires_at(d)) < now
 //@   ensures survivors: forall d Id :: (!old(deliveries.exists(d)) ==> !deliveries.exists(d)) && (deliveries.exists(d) ==> delivery_kept(d))
 //@   ensures wakes_ordered: [C10] err == nil ==> (forall d Id :: old(deliveries.exists(d)) && !deliveries.exists(d) &&
-//@             subscriptions.exists(old(deliveries.subscription_id(d))) && subscriptions.ordered_delivery(old(deliveries.subscription_id(d))) ==> wake_on_commit(old(deliveries.subscription_id(d))))
+//@             subscriptions.exists(old(deliveries.subscription_id(d))) && ordered(old(deliveries.subscription_id(d))) ==> wake_on_commit(old(deliveries.subscription_id(d))))
 //@   ensures no_swallowed_failure: [C09] dbfailed() && !old(dbfailed()) ==> err != nil
 //@   modifies T:deliveries:$live, T:deliveries:not_before_id$null, S:dbfailed, S:wake_on_commit, F:actions.PruneExpiredDeliveries:*, F:actions.PruneCommonResults:*, F:actions.actionTimer:*
 
@@ -233,6 +233,7 @@ package actions
 //@   ensures untouched: forall s Id :: subscriptions.deleted_at$null(s) == old(subscriptions.deleted_at$null(s)) ==>
 //@             subscriptions.live$null(s) == old(subscriptions.live$null(s)) || !old(subscriptions.deleted_at$null(s))
 //@   ensures wakes: [C10] err == nil ==> (forall s Id :: subscriptions.deleted_at$null(s) != old(subscriptions.deleted_at$null(s)) ==> wake_on_commit(s))
+//@   ensures stamps_stable: [C15] forall s Id :: !old(subscriptions.deleted_at$null(s)) ==> subscriptions.deleted_at(s) == old(subscriptions.deleted_at(s))
 //@   ensures no_swallowed_failure: [C09] dbfailed() && !old(dbfailed()) ==> err != nil
 //@   modifies T:subscriptions:deleted_at, T:subscriptions:deleted_at$null, T:subscriptions:live$null, S:dbfailed, S:wake_on_commit, E:uuid.UUID:, F:actions.DeleteExpiredSubscriptions:*, F:actions.PruneCommonResults:*, F:actions.actionTimer:*
 //@   loop 1
